@@ -130,7 +130,8 @@ func init() {
 		}
 	}
 	extraRules["C14"] = both(stale("proof"), loopShare("proof"))
-	extraRules["C13"] = both(stale("share/pvss", "proof/dleq"), roTargetsFor("share/pvss.", "proof/dleq."), loopShare("share/pvss", "proof/dleq"))
+	extraRules["C13"] = both(stale("share/pvss", "proof/dleq"), roTargetsFor("share/pvss.", "proof/dleq."), loopShare("share/pvss", "proof/dleq"),
+		func(c *Ctx) { AccGate(c, "default", "C13") })
 	extraRules["C06"] = roTargetsFor(").Pair", ").ValidatePairing")
 	extraRules["C08"] = both(stale("sign/schnorr", "sign/eddsa", "sign/anon"), entropyRule("C08"))
 	extraRules["C02"] = entropyRule("C02")
@@ -169,6 +170,7 @@ func init() {
 		stale("sign/bls", "sign/tbls", "sign/bdn", "sign/cosi")(c)
 		PairedUpdates(c, "default")
 		CheckMustWrite(c, "C09")
+		AccGate(c, "default", "C09")
 	}
 	extraRules["C07"] = stale("share")
 	extraRules["C04"] = func(c *Ctx) {
@@ -178,7 +180,7 @@ func init() {
 	}
 	extraRules["C10"] = func(c *Ctx) { WriterDiscipline(c, "default", "C10"); CheckMustWrite(c, "C10") }
 	extraRules["C11"] = func(c *Ctx) { WriterDiscipline(c, "default", "C11"); CheckMustWrite(c, "C11") }
-	extraRules["C12"] = func(c *Ctx) { WriterDiscipline(c, "default", "C12"); CheckMustWrite(c, "C12") }
+	extraRules["C12"] = func(c *Ctx) { WriterDiscipline(c, "default", "C12"); CheckMustWrite(c, "C12"); AccGate(c, "default", "C12") }
 }
 
 func init() {
@@ -223,6 +225,8 @@ func tierConfigs(c *Ctx) []string {
 func init() {
 	Register(&Property{ID: "C18", Trusted: commonTrusted, RuleText: "SH-SIBCONST / SH-CONFIG / EFX per configuration", Explanation: "implementations agree (structure)", Run: func(c *Ctx) {
 		SiblingConstants(c, "default")
+		// the three scalar-multiplication algorithms / build variants must each assign their whole output on every path
+		CheckMustWrite(c, "C01")
 		cfgs := []string{"default", "ct", "generic"}
 		if c.Tier == "thorough" {
 			cfgs = append(cfgs, "purego", "arm64")
